@@ -4,6 +4,8 @@ from pyvc.driver import custom
 from pyvc import astcheck as A
 
 LEVEL = "other"
+# obligations whose failure is a semantic fact about the tree (not a shape that is no longer recognized): reported as violations on their own
+DEFINITE = ("_goes_to_", "no_type_on_two_sheets", "transaction_types_are_the_14", "every_routed_sheet_is_a_template_sheet_kept")
 FLOOR = 60
 EXPLANATION = ("Routing is a finite case analysis decided on the AST of the current tree: the _SHEET_TO_TYPES literal of each plugin is evaluated (enum members "
                "resolved from the class bodies of SheetNames and TransactionType), the derived _TYPE_TO_SHEET must be its inverse, and for each of the 13 "
